@@ -80,15 +80,15 @@ def run(fx, tier):
                 d_at = (decs[0].b, decs[0].i)
                 is_msg = lambda e: is_deref_of_optional_from(e, d_at)
                 # reason codes: to_reason_codes(move(binding 1 of *decoded)); same vector that was counted
-                rc_arg = core(p.arg(c, 2))
+                rc_full = p.arg(c, 2)
                 trcs = p.entered('to_reason_codes') + p.calls('to_reason_codes')
                 ok_rc = False
-                if len(trcs) == 1 and isinstance(rc_arg, dict):
+                if len(trcs) == 1:
+                    at = (trcs[0].b, trcs[0].i)
+                    from_call = lambda t: contains(t, lambda n: n.get('_at') == at and n.get('k') in ('call', 'retof'))
                     src_ok = binding_of(p.arg(trcs[0], 0), 1, is_msg)
-                    is_result = rc_arg.get('_at') == (trcs[0].b, trcs[0].i) or contains(
-                        rc_arg, lambda n: n.get('_at') == (trcs[0].b, trcs[0].i))
-                    counted = vec is not None and contains(p.origin(c, vec) if not isinstance(vec, dict) or vec.get('k') == 'elem' else vec,
-                                                           lambda n: n.get('_at') == (trcs[0].b, trcs[0].i))
+                    is_result = from_call(rc_full)
+                    counted = vec is not None and from_call(vec)
                     ok_rc = src_ok and is_result and counted
                 v.check(ok_rc, 'R-FLOW', inst + ':reason-codes',
                         'handler receives to_reason_codes(codes of the decoded %s), the same vector whose size was compared'
